@@ -17,6 +17,10 @@
       every accepted b, and sigEncode(sigDecode(s)) reproduces c-tilde and all z fields of every
       accepted s.  Hence decoding is injective on accepted strings (no second encoding of the same
       key / response vector); for the hint section the same follows from the classes of R1 only.
+  R5 (FIPS bit layout)  with every input bit a boolean symbol, coefficient i of BitUnpack is exactly
+      b - sum_t 2^t * bit(i*c + t) and of SimpleBitUnpack sum_t 2^t * bit(i*c + t) (bit j of the string
+      = bit j mod 8 of byte j div 8), for every (a, b) in use: the decoders - and by R4 the encoders -
+      use the bit order of Alg. 16-19.
 Not decided: re-encode identity of the hint section for every accepted string (symbolic indices).
 """
 import json
@@ -93,7 +97,7 @@ def main(tier):
     return rep.finish("other", cov, ["class family is a cover of the taxonomy, not of all inputs", "re-encode identity not decided"])
 
 
-def analyse(rep, ob, sets, rules=("R1", "R2", "R3", "R4"), prefix="", codecs=("sig", "pk", "sk")):
+def analyse(rep, ob, sets, rules=("R1", "R2", "R3", "R4", "R5"), prefix="", codecs=("sig", "pk", "sk")):
     if prefix:
         ob0 = ob
         ob = lambda ok, key, detail: ob0(ok, prefix + key, detail)
@@ -122,6 +126,12 @@ def analyse(rep, ob, sets, rules=("R1", "R2", "R3", "R4"), prefix="", codecs=("s
         for nm, a, b in (("eta", eta, eta), ("t0", (1 << 12) - 1, 1 << 12), ("z", g1 - 1, g1), ("t1", 0, 1023)):
             c = bitlen(a + b)
             J.append(("%s:unpack:%s" % (s, nm), "conversion::bit_unpack", {"arg1": "%d..%d" % (a, a), "arg2": "%d..%d" % (b, b), "len.v": "%d..%d" % (32 * c, 32 * c), "probe": "conversion::bit_unpack"}))
+        if "R5" in rules:
+            for nm, a, b in (("eta", eta, eta), ("t0", (1 << 12) - 1, 1 << 12), ("z", g1 - 1, g1)):
+                c = bitlen(a + b)
+                J.append(("%s:bitlayout:%s" % (s, nm), "conversion::bit_unpack", {"arg1": "%d..%d" % (a, a), "arg2": "%d..%d" % (b, b), "len.v": "%d..%d" % (32 * c, 32 * c),
+                                                                            "atoms.arg0": "bits", "lin.cap": "64", "dump_lin": "1"}))
+            J.append(("%s:bitlayout:t1" % s, "conversion::simple_bit_unpack", {"arg1": "1023..1023", "len.v": "320..320", "atoms.arg0": "bits", "lin.cap": "64", "dump_lin": "1"}))
         if "R4" in rules:
             bits = {"atoms.big": "1", "lin.cap": "64", "then.spread": "1"}
             if "sig" in codecs:
@@ -201,6 +211,25 @@ def analyse(rep, ob, sets, rules=("R1", "R2", "R3", "R4"), prefix="", codecs=("s
             elif w is not None:
                 wr = w.get("int") if isinstance(w, dict) else None
                 ob(wr is not None and (wr[1] < -a or wr[0] > b), "R3:reject-witness:%s" % nm, {"rule": "R3 rejected elements lie outside [-a, b]", "set": s, "rejecting_interval": wr})
+        # R5: the bit layout of the field decoders is FIPS 204's (BytesToBits little-endian, BitsToInteger little-endian)
+        if "R5" in rules:
+            for nm, a, b in (("eta", P["eta"], P["eta"]), ("t0", (1 << 12) - 1, 1 << 12), ("z", P["gamma1"] - 1, P["gamma1"]), ("t1", 0, 1023)):
+                j = byid.get("%s:bitlayout:%s" % (s, nm))
+                d = (j or {}).get("lin_dump")
+                if not j or j.get("error") or not d:
+                    vlib.fail_closed(rep, "job:bitlayout:%s:%s" % (s, nm), (j or {}).get("error") or "no forms")
+                    continue
+                c = bitlen(a + b)
+                bad = None
+                for i, leaf in enumerate(d):
+                    want = {"arg0[%d].%d" % ((i * c + t) // 8, (i * c + t) % 8): ((1 << t) if a == 0 else -(1 << t)) for t in range(c)}
+                    got = None if leaf is None else (leaf[0], leaf[1], {x: y for x, y in leaf[2]})
+                    if got != (0, (0 if a == 0 else b), want):
+                        bad = {"coefficient": i, "code": str(got)[:200], "expected_bits": "%d..%d of the bit string" % (i * c, i * c + c - 1)}
+                        break
+                ob(len(d) == 256 and bad is None, "R5:bit-layout:%s" % nm,
+                   {"rule": "R5 coefficient i of %s is %s the integer formed by bits i*c .. i*c+c-1 of the byte string (little-endian bits and bytes), as Alg. 18 / 19 prescribe" %
+                    ("SimpleBitUnpack" if a == 0 else "BitUnpack(a=%d, b=%d)" % (a, b), "" if a == 0 else "b minus"), "set": s, "c": c, "first_mismatch": bad})
         # R4: decode then encode reproduces the input bit for bit (every input bit is a boolean symbol)
         if "R4" in rules:
             hint_off = P["sig_len"] - P["omega"] - P["k"]
